@@ -1052,11 +1052,14 @@ func (env *Zlisp) LexicalLookupSymbol(sym *SexpSymbol, setVal *Sexp) (Sexp, erro
 		break
 	}
 
+	// the closure whose code is running: its captured scopes come next.
+	curfunc := env.lexicalFunc()
+
 	// check the parent function lexical captured scopes, if parent available.
-	if env.curfunc.parent != nil {
+	if curfunc.parent != nil {
 		//P("checking non-nil parent...")
 		//exp, err, whichScope := env.curfunc.parent.ClosingLookupSymbol(sym, setVal)
-		exp, err, whichScope := env.curfunc.LookupSymbolInParentChainOfClosures(sym, setVal, env)
+		exp, err, whichScope := curfunc.LookupSymbolInParentChainOfClosures(sym, setVal, env)
 		switch err {
 		case nil:
 			//P("LookupSymbolUntilFunction('%s') found in curfunc.parent.ClosingLookupSymbol() scope '%s'\n", sym.name, whichScope.Name)
@@ -1069,7 +1072,7 @@ func (env *Zlisp) LexicalLookupSymbol(sym *SexpSymbol, setVal *Sexp) (Sexp, erro
 
 		//fmt.Printf(" *** env.curfunc has closure of: %s\n", ClosureToString(env.curfunc, env))
 		//exp, err, scope = env.curfunc.ClosingLookupSymbol(sym, setVal)
-		exp, err, scope = env.curfunc.ClosingLookupSymbolUntilFunc(sym, setVal, 1, false)
+		exp, err, scope = curfunc.ClosingLookupSymbolUntilFunc(sym, setVal, 1, false)
 		switch err {
 		case nil:
 			//P("LexicalLookupSymbol('%s') found in env.curfunc.ClosingLookupSymbolUnfilFunc(1, false) in scope '%s'\n", sym.name, scope.Name)
@@ -1089,6 +1092,28 @@ func (env *Zlisp) LexicalLookupSymbol(sym *SexpSymbol, setVal *Sexp) (Sexp, erro
 	}
 
 	return SexpNull, fmt.Errorf("symbol `%s` not found", sym.name), nil
+}
+
+// lexicalFunc returns the compiled function whose code is running.
+// While a Go builtin runs, env.curfunc is the builtin, which has
+// captured nothing; the function that called it is on the address
+// stack, where CallUserFunction put it. A builtin that resolves a
+// symbol (a dot-symbol operand such as h.x, defined?) must see the
+// variables its caller sees, the captured ones included.
+func (env *Zlisp) lexicalFunc() *SexpFunction {
+	fn := env.curfunc
+	for i := 0; fn != nil && fn.user && i < env.addrstack.Size(); i++ {
+		elem, err := env.addrstack.Get(i)
+		if err != nil {
+			break
+		}
+		addr, isAddr := elem.(Address)
+		if !isAddr || addr.function == nil {
+			break
+		}
+		fn = addr.function
+	}
+	return fn
 }
 
 func (env *Zlisp) LexicalBindSymbol(sym *SexpSymbol, expr Sexp) error {
